@@ -248,11 +248,45 @@ fn delimiter_spellings(ctx: &Ctx, sink: &mut Sink) {
         tags.push("delimiter-spelling");
         sink.push(Case { req: format!("bd-args {} {}", d, hex_list(&whole)), imp, tags });
     }
+    // the spellings of NUL (on an input that contains NULs, which only a NUL delimiter can carry)
+    let input: Vec<u8> = b"p q\nr\0s\0\0t".to_vec();
+    for sp in ["\\0", "\\00", "\\000", "\\x00"] {
+        let r = crate::recorder::run_xargs(ctx, &["-d", sp], &[], &input, &[]);
+        // the code refuses the bare spelling \0 (its own suite pins that); a refusal that runs nothing splits nothing wrongly
+        if sp == "\\0" && r.status == 1 && r.invocations.is_empty() { continue; }
+        let all: Vec<Vec<u8>> = r.invocations.iter().flat_map(|inv| inv.argv[1..].to_vec()).collect();
+        let imp = if r.status == 0 { format!("ok {}", hex_list(&all)) } else if r.status == 1 { "err".to_string() } else { format!("status{} {}", r.status, hex_list(&all)) };
+        let whole = vec![input.clone()];
+        let mut tags = tags_for(&input, &whole, &imp);
+        tags.push("binary");
+        tags.push("delimiter-spelling");
+        sink.push(Case { req: format!("bd-args 0 {}", hex_list(&whole)), imp, tags });
+    }
+}
+
+/// no command: the built-in default (echo) writes the arguments themselves, bytes that are not UTF-8 included
+fn default_echo(ctx: &Ctx, sink: &mut Sink) {
+    for input in [b"a\xffb\0caf\xe9\0plain\0".to_vec(), b"\xfe\0".to_vec(), b"x\0y\0".to_vec()] {
+        let out = std::process::Command::new(ctx.bin("xargs")).arg("-0")
+            .stdin(std::process::Stdio::piped()).stdout(std::process::Stdio::piped()).stderr(std::process::Stdio::null())
+            .spawn().and_then(|mut ch| { use std::io::Write; ch.stdin.take().unwrap().write_all(&input)?; ch.wait_with_output() }).expect("run xargs");
+        let mut text = out.stdout.clone();
+        if text.last() == Some(&b'\n') { text.pop(); }
+        let all: Vec<Vec<u8>> = text.split(|b| *b == b' ').map(|x| x.to_vec()).collect();
+        let st = crate::recorder::status_code(out.status);
+        let imp = if st == 0 { format!("ok {}", hex_list(&all)) } else { format!("status{} {}", st, hex_list(&all)) };
+        let whole = vec![input.clone()];
+        let mut tags = tags_for(&input, &whole, &imp);
+        tags.push("binary");
+        tags.push("default-echo");
+        sink.push(Case { req: format!("bd-args 0 {}", hex_list(&whole)), imp, tags });
+    }
 }
 
 pub fn run_prop(ctx: &Ctx, sink: &mut Sink) {
     let mut rng = Rng::new(ctx.seed).fork(5);
     delimiter_spellings(ctx, sink);
+    default_echo(ctx, sink);
     let (maxlen, nrand, nbin) = if ctx.thorough { (6, 60_000, 1500) } else { (5, 4_000, 150) };
     // corpus-like fixed cases first
     for (delim, chunks) in [
